@@ -16,55 +16,55 @@ CHECKS = {
    text="After every operation of a build history the full observable state (NRows, NColumns, AllRows identity/order, CellAt and Location over an over-wide coordinate window, Column(n) existence, AllRows copy isolation) is compared with a reference model; bounded-exhaustive over short histories plus random long ones.",
    note="The reference model (~80 lines) is trusted. A *Row attached twice is outside the quantifier."),
  "C03": dict(cat="exploration", tech="runtime monitor: structural parser of the rendered text table (rules, slots, divider offsets) against the model grid, under every registered and random Populate()d decoration",
-   text="Rendered output is parsed line by line against the grid of cell texts: line kinds and counts, every column exactly w_i+2 wide on every line, dividers one cell wide at the same offsets; no golden strings. Held on the K (table, decoration) pairs observed.",
+   text="Rendered output is parsed line by line against the grid of cell texts: line kinds and counts, every column exactly w_i+2 wide on every line, dividers one cell wide at the same offsets; no golden strings. Half of the cases are staged: the wrapper is created first and renders the partial table under other settings before the build is completed, items are mutated (+Update) and the judged render is made through the same wrapper. Held on the K (table, decoration) pairs observed.",
    note="Display width is the library's own length.StringCells (the property defines width that way); glyph identity is not asserted."),
  "C04": dict(cat="exploration", tech="runtime monitor: the C03 parser with the padding split fixed by the effective alignment, and size-overriding items",
-   text="Each slot must be byte-equal to pad_l+text+pad_r with the split dictated by the column's effective alignment (own, else column 0, else left); single-line width-declaring items are laid out by their declared width; height-declaring rows have at least the declared and the actual number of lines.",
+   text="Each slot must be byte-equal to pad_l+text+pad_r with the split dictated by the column's effective alignment (own, else column 0, else left); single-line width-declaring items are laid out by their declared width; height-declaring rows have at least the declared and the actual number of lines. Staged mode as in C03, with another alignment assignment in force at the earlier renders and withdrawals before the judged one.",
    note="Same trust as C03; multi-line items that also declare a width are only checked for line counts and for the other columns."),
  "C05": dict(cat="exploration", tech="runtime monitor: strict byte-level RFC 4180 all-quoted state-machine parser of the CSV output, compared with the model grid",
-   text="Successful CSV output must be consumed entirely by a strict all-fields-quoted parser and read back byte for byte as header + non-separator rows, NColumns fields each; a 0-column table must be refused.",
+   text="Successful CSV output must be consumed entirely by a strict all-fields-quoted parser and read back byte for byte as header + non-separator rows, NColumns fields each; a 0-column table must be refused. Texts are drawn short, medium (tens of bytes) and boundary-sized (255..4100 bytes); half of the cases are staged (same wrapper renders the partial table first).",
    note="The parser (40 lines) is trusted; no stock CSV reader is involved."),
  "C06": dict(cat="exploration", tech="runtime monitor: strict HTML tokenizer + stdlib entity decoding of the output against the model; the row-class generator is itself the call-sequence monitor",
-   text="The token stream must be exactly the fixed skeleton; every text and attribute value must entity-decode to the supplied string; generator calls must be [0, 1-based positions of non-separator rows], once each.",
+   text="The token stream must be exactly the fixed skeleton; every text and attribute value must entity-decode to the supplied string; generator calls must be [0, 1-based positions of non-separator rows], once each. Half of the cases are staged (same wrapper first renders the partial table under another id/class/caption/generator); in a sixth of them the rows are also collected into a second table.",
    note="html.UnescapeString is trusted as decoder (it is not the code path html/template escapes with). Strings containing NUL are outside the alphabet (HTML cannot carry U+0000)."),
  "C07": dict(cat="exploration", tech="runtime monitor: encoding/json decode of the output (duplicate-key aware token pass) against the model, every separator placement and skipable assignment for small tables, negative configurations",
-   text="err==nil output must decode to one object per non-separator row with exactly the expected key set and compacted values; every listed misconfiguration must yield an error and Render must then return no text.",
+   text="err==nil output must decode to one object per non-separator row with exactly the expected key set and compacted values; every listed misconfiguration must yield an error and Render must then return no text. Half of the cases are staged (same wrapper, other skipable settings at the earlier renders, explicit withdrawals).",
    note="encoding/json's decoder is trusted; header texts that are not valid UTF-8 are only checked for no-panic."),
  "C08": dict(cat="exploration", tech="runtime monitor: byte-wise GFM line/pipe splitter + entity decoding of the Markdown output against the model and the effective-alignment rule",
-   text="Output must be header, delimiter and one line per non-separator row, each with NColumns+1 unescaped pipes; delimiter cells :?-{3,}:? per effective alignment; cells decode to the trimmed text; no raw | LF < > & \" ' from content; header-less / column-less tables refused.",
+   text="Output must be header, delimiter and one line per non-separator row, each with NColumns+1 unescaped pipes; delimiter cells :?-{3,}:? per effective alignment; cells decode to the trimmed text; no raw | LF < > & \" ' from content; header-less / column-less tables refused. Half of the cases are staged (same wrapper, other alignments at the earlier renders, explicit withdrawals; a fresh wrapper must agree with the reused one).",
    note="html.UnescapeString trusted; CR excluded (documented non-goal)."),
  "C09": dict(cat="exploration", tech="runtime monitor: recover()-based panic guard and (text,err) check around every renderer and style, over bounded-exhaustive and random build sequences",
-   text="All build sequences up to a bounded length over the building operations x item flavours are enumerated exhaustively and each resulting table is rendered by all five renderers and every registered decoration under a panic guard; longer random sequences in addition.",
+   text="All build sequences up to a bounded length over the building operations x item flavours are enumerated exhaustively and each resulting table is rendered by all five renderers and every registered decoration under a panic guard; longer random sequences in addition; registered decorations include one complete and seven partially filled application decorations; the order of the routes over the one table varies per case.",
    note="Go's runtime checks are the sanitizer. Custom Table implementations that lie about NColumns are outside the statement."),
  "C10": dict(cat="exploration", tech="runtime monitor: byte-equality of outputs across creation paths x render routes x wrapper nestings",
-   text="One history is replayed on a table from every creation path; outputs collected through package functions, wrapper methods, auto and nested wrappers must be byte-identical to the reference route, and Render must equal what RenderTo writes.",
+   text="One history is replayed on a table from every creation path; outputs collected through package functions, wrapper methods, auto and nested wrappers must be byte-identical to the reference route, and Render must equal what RenderTo writes; six application-registered decorations are targets and creation paths too; right after any render that returned an error a canary table is rendered through Render and RenderTo in all five formats.",
    note="Equality only; which bytes are right is C03-C08's business."),
  "C11": dict(cat="exploration", tech="runtime monitor: conservation / exactly-once checker over unique error ids raised along generated histories; container operations bounded-exhaustive",
-   text="Every error the harness raises has a unique identity; after every step the table's list must contain each id raised by a source belonging to the table exactly once, per-source order preserved, no nil entries, nil-or-non-empty.",
+   text="Every error the harness raises has a unique identity; after every step the table's list must contain each id raised by a source belonging to the table exactly once, per-source order preserved, no nil entries, nil-or-non-empty; the caller overwrites its list after AddErrorList, a second container / summary table is fed from Errors(), rows come from all three constructors.",
    note="Relative order of errors from different sources is not asserted."),
  "C12": dict(cat="exploration", tech="runtime monitor: per-step comparison with a map[owner]map[key]value reference model over all owners incl. by-value cell copies and stale column handles; growth monitors (%#v dump and heap)",
    text="After every step every (owner,key) pair seen so far is read back and compared with the reference maps; repeated sets must not change the %#v dump nor grow the heap.",
    note="Non-comparable and nil keys are documented panics and not generated."),
  "C13": dict(cat="exploration", tech="runtime monitor: recording callbacks + offline trace checker against the documented nesting grammar; all 48 (owner,time,target) registrations exhaustively, pairs in thorough",
-   text="Recording callbacks log every invocation with target identity; the log is compared with the trace generated from the table shape by the documented nesting order; liveness of the delivered object is checked by reading back a property set inside the callback.",
+   text="Recording callbacks log every invocation with target identity; the log is compared with the trace generated from the table shape by the documented nesting order; liveness of the delivered object is checked by reading back a property set inside the callback; a further phase adds cell values that already carry callbacks at several places and copies live cells by value (registrations must fire on their own cell and on by-value copies of carriers only).",
    note="Events the statement does not list are only checked for at-most-once."),
  "C14": dict(cat="exploration", tech="runtime monitor: output equality per format across render sequences + observable-state snapshot diff after every render",
-   text="Random render sequences over all formats and decorations, reused and fresh wrappers mixed; k-th output must equal the first of its format; snapshot of counts, texts, locations, user properties and errors must not change.",
+   text="Random render sequences over all formats and decorations, reused and fresh wrappers mixed; k-th output must equal the first of its format; snapshot of counts, texts, locations, user properties and errors must not change; every (owner,key) over a fixed key set incl. alignment and skipable is probed whether set or not; some items are mutated without Update before the renders.",
    note="The library's private measurement keys are not user-set and not part of the snapshot."),
  "C15": dict(cat="fault_enumeration", tech="fault injection: scripted io.Writer failing at every Write index k x {from k on, only at k, partial write + error at k}, exhaustive per table; second channel: real write(2) failing with ENOSPC under strace",
-   text="For each table and renderer the fault-free run counts N writes; then every k in 1..N x 3 modes is injected: RenderTo must return non-nil without panicking and the accepted bytes must be a prefix of the fault-free output. Exhaustive per table, tables chosen to reach every write site.",
+   text="For each table and renderer the fault-free run counts N writes; then every k in 1..N x 3 modes is injected: RenderTo must return non-nil without panicking and the accepted bytes must be a prefix of the fault-free output. Exhaustive per table, tables chosen to reach every write site; each injection is made through a plain io.Writer and through a writer that also implements io.StringWriter.",
    note="A writer returning a short count with nil error breaks the io.Writer contract and is not injected."),
  "C16": dict(cat="exploration", tech="Go race detector over a barrier-released many-goroutine build+render workload, plus equality of every concurrent output with the sequential output",
-   text="No race report and no output difference in N executions at several GOMAXPROCS values; says nothing about interleavings that did not happen (evidence reports distinct interleaving signatures).",
+   text="No race report and no output difference in N executions at several GOMAXPROCS values; says nothing about interleavings that did not happen (evidence reports distinct interleaving signatures). Tables are built inside the goroutines; the sequential reference is computed after the batch.",
    note="Sharing one table or wrapper between goroutines is out of scope."),
  "C17": dict(cat="exploration", tech="Go race detector + porcupine linearizability check of recorded Register/Named/List histories against a sequential map model; fail-closed sequence monitor",
-   text="Recorded client-boundary histories with unique registered values are checked against a sequential map model (porcupine); race detector on; unknown names must fail closed. No report in N executions / histories.",
+   text="Recorded client-boundary histories with unique registered values are checked against a sequential map model (porcupine); race detector on; renders by name are reads of the model; unknown names must fail closed, also after earlier known names on the same table. No report in N executions / histories.",
    note="A checker timeout is inconclusive, never a violation."),
  "C18": dict(cat="exploration", tech="runtime monitor: metamorphic relations between independently computed library metrics over generated and bounded-exhaustive strings and the cells built from them",
-   text="join(Lines)=s up to one trailing LF; LongestLineX = max per line; runes<=bytes; cells<=2*runes; non-overriding cell Height=len(Lines), width=LongestLineCells. Held on K strings x 6 LF variants x 6 cell kinds.",
+   text="join(Lines)=s up to one trailing LF; LongestLineX = max per line; runes<=bytes; cells<=2*runes; non-overriding cell Height=len(Lines), width=LongestLineCells. Held on K strings x 6 LF variants x 6 cell kinds, plus one long-lived cell driven through all variants with Update.",
    note="The relations tie library results to each other; absolute widths are not asserted."),
  "C19": dict(cat="exploration", tech="runtime monitor: full style battery (list, New+render each listed name, case variants, trailing sections, texttable. prefix, unknown names) re-run after every step of a registration history",
-   text="After each registration the listing must be sorted and complete and every listed name must render; all case variants of sub-package names (exhaustive) and trailing sections select the same renderer; texttable.NAME equals NAME; unknown names fail.",
+   text="After each registration the listing must be sorted and complete and every listed name must render; all case variants of sub-package names (exhaustive) and trailing sections select the same renderer; texttable.NAME equals NAME; unknown names fail; names are used as style strings before they are registered; listings handed out are scribbled over.",
    note="The registry is global and grow-only; each history uses a fresh namespace."),
 }
 
@@ -105,7 +105,7 @@ def main():
         }],
         "checks": checks,
         "not_applicable": na,
-        "notes": "Family: runtime monitoring and sanitizers. Verdicts are three-valued (exit 0 held / 1 VIOLATION / 2 INCONCLUSIVE). KNOWN_FINDINGS.txt lists repaired defects (fixed:) and, if any, recorded ones (known:). See DESIGN.md.",
+        "notes": "Family: runtime monitoring and sanitizers. Verdicts are three-valued (exit 0 held / 1 VIOLATION / 2 INCONCLUSIVE). 19 genuine defects of the tree as given were repaired by separate unguarded fix: commits in /repo (c1f3764..3624f96) and are listed as fixed: in KNOWN_FINDINGS.txt; there are no known: entries. No hooks were needed. selftest/ (mutants) and seeded/ (55 independently written changes) document which checks catch which changes. See DESIGN.md.",
     }
     json.dump(m, open(os.path.join(HERE, "MANIFEST.json"), "w"), indent=1, ensure_ascii=False)
     print("MANIFEST.json: %d checks, %d not_applicable" % (len(checks), len(na)))
